@@ -164,3 +164,78 @@ func checkStopOrder(p *load.Program, r *kit.Report, rule string) {
 	}
 	r.Check(bad == "", rule, "BitcoinNode.Stop/connection-before-channel", pos, "connection.Close() precedes outgoingMsgChannel.Close()", bad)
 }
+
+// checkNoPeerReadUnderNodeLock: no handler reads from the peer while it holds the node mutex.
+// Stop() starts with Address(), NodeManager polls IsBusy()/ID() under its own mutex and run() takes
+// the node mutex right after the threads stop: a peer that sends part of a payload and then goes
+// silent would park the handler inside the read with the mutex held — every timeout path goes
+// through Stop and blocks, Run never returns and the manager freezes with it.
+func checkNoPeerReadUnderNodeLock(p *load.Program, r *kit.Report, rule string) {
+	fns, _ := allHandlers(p)
+	seen := map[*ssa.Function]bool{}
+	n := 0
+	k := newKeyer()
+	var walk func(f *ssa.Function, depth int)
+	walk = func(f *ssa.Function, depth int) {
+		if f == nil || seen[f] || f.Blocks == nil || depth > 4 || f.Pkg == nil || f.Pkg.Pkg.Path() != R {
+			return
+		}
+		seen[f] = true
+		li := kit.Lockset(f, entryLocks(p)[f])
+		name := kit.ShortID(kit.FuncID(f))
+		bad := ""
+		reads := 0
+		kit.AllInstrs(f, func(in ssa.Instruction) {
+			c, ok := in.(ssa.CallInstruction)
+			if !ok {
+				return
+			}
+			if _, isDefer := in.(*ssa.Defer); isDefer {
+				return
+			}
+			id := kit.CallID(c)
+			isRead := false
+			switch {
+			case id == R+".readMessage", id == R+".DiscardInput", id == R+".DiscardInputWithCounter", id == R+".readHeader",
+				id == "io.ReadFull", id == "io.CopyN", id == "io.Copy", id == "encoding/binary.Read",
+				strings.HasPrefix(id, load.WirePkg+".ReadVarInt"), strings.HasSuffix(id, ".Deserialize"), strings.HasSuffix(id, ".BtcDecode"):
+				isRead = true
+			}
+			if isRead {
+				// only reads whose source is the handler's reader parameter (an io.Reader), not an
+				// in-memory buffer
+				src := false
+				for _, a := range c.Common().Args {
+					if kit.DependsOn(a, func(v ssa.Value) bool {
+						prm, ok := v.(*ssa.Parameter)
+						return ok && strings.HasSuffix(prm.Type().String(), "io.Reader")
+					}) {
+						src = true
+					}
+				}
+				if !src {
+					return
+				}
+				reads++
+				held := li.HeldAt(in)
+				if strings.Contains(held, ".Mutex:") && bad == "" {
+					bad = kit.ShortID(id) + " at " + posOf(p, in) + " reads from the peer while the node mutex is held (" + held + "): a peer that stops sending mid-payload parks the handler with the lock that Stop(), run() and the node manager need"
+				}
+				return
+			}
+			if sc := kit.StaticCallee(c); sc != nil {
+				walk(sc, depth+1)
+			}
+		})
+		if reads > 0 {
+			n++
+			r.Check(bad == "", rule, k.key(name+"/reads-without-node-lock"), posOf(p, f.Blocks[0].Instrs[0]), "peer reads are made with the node mutex released", bad)
+		}
+	}
+	for _, h := range fns {
+		walk(h, 0)
+	}
+	if n < 8 {
+		r.Unknown(rule, "handlers/reads", "-", "expected at least 8 handler functions that read from the peer, found %d", n)
+	}
+}
